@@ -22,6 +22,8 @@
 (*   repl(k, j, s) replace the value of token j of line k by s, for every   *)
 (*                 s of the adversarial set of its kind                     *)
 (*   dropt / dupt(k, j), dropl / dupl(k), blank(k)                          *)
+(*   cutb(k) / byte(k, s) / insb(k, s)  the rendered file cut / damaged /   *)
+(*                 extended at byte floor(n * k / ByteK)                    *)
 (* TLC enumerates (variant x fault) and prints one CASE per pair; the       *)
 (* harness renders the bytes and runs every decoder of that format on them; *)
 (* CodecJudge judges the recorded outcomes.                                 *)
@@ -203,6 +205,14 @@ NoFault == [kind |-> "none", k |-> 0, j |-> 0, s |-> ""]
 EndsWithHeader(f) == Len(f[Len(f)].toks) > 0 /\ f[Len(f)].toks[1].v = "end_header"
 ValidFaults(f) == {NoFault} \cup (IF Len(f) > 0 /\ ~f[Len(f)].bin /\ ~EndsWithHeader(f)
                                    THEN {[kind |-> "cutl", k |-> Len(f), j |-> 0, s |-> ""]} ELSE {})
+\* Byte-level faults act on the rendered file of n bytes at the position floor(n * k / ByteK): the file cut there,
+\* the byte there replaced by, or a byte inserted there with, every value of AdvBytes (NUL, 0xFF, 0x80, '-', '9',
+\* 'e', blank, newline).  They reach what no token rewrite does: cuts and damage inside numbers, keywords and
+\* binary fields.
+ByteK == IF Tier = "quick" THEN 24 ELSE 96
+AdvBytes == {"0", "255", "128", "45", "57", "101", "32", "10"}
+ByteFaults == { [kind |-> "cutb", k |-> k, j |-> ByteK, s |-> ""] : k \in 0..ByteK }
+              \cup { [kind |-> kd, k |-> k, j |-> ByteK, s |-> s] : kd \in {"byte", "insb"}, k \in 0..(ByteK - 1), s \in AdvBytes }
 Faults(f) ==
     IF OnlyValid THEN ValidFaults(f) ELSE
     {NoFault}
@@ -213,6 +223,7 @@ Faults(f) ==
                            j \in 1..Len(f[k].toks) } : k \in 1..Len(f) }
     \cup { [kind |-> kd, k |-> k, j |-> j, s |-> ""] : kd \in {"dropt", "dupt"}, k \in 1..Len(f), j \in 1..5 }
     \cup { [kind |-> kd, k |-> k, j |-> 0, s |-> ""] : kd \in {"dropl", "dupl", "blank"}, k \in 1..Len(f) }
+    \cup ByteFaults
 
 WellFormed(f, x) ==
     CASE x.kind \in {"repl", "dropt", "dupt"} -> x.j <= Len(f[x.k].toks)
@@ -231,6 +242,8 @@ Apply(f, x) ==
       [] x.kind = "dropl" -> [lines |-> Remove(f, x.k), nl |-> 1, cut |-> 0]
       [] x.kind = "dupl" -> [lines |-> SubSeq(f, 1, x.k) \o SubSeq(f, x.k, Len(f)), nl |-> 1, cut |-> 0]
       [] x.kind = "blank" -> [lines |-> SubSeq(f, 1, x.k) \o <<TL(<< >>)>> \o SubSeq(f, x.k + 1, Len(f)), nl |-> 1, cut |-> 0]
+      \* applied by the renderer to the bytes of the unfaulted file
+      [] x.kind \in {"cutb", "byte", "insb"} -> [lines |-> f, nl |-> 1, cut |-> 0]
 
 \* the "none" fault in both newline variants is the C15 clause "text written to the
 \* format's specification is read back"
